@@ -120,13 +120,77 @@ func runRecoverOrder(c *Ctx, r *RuleRun) {
 		for _, cf := range host.AnonFuncs {
 			cf := cf
 			func() {
-				if len(cf.Params) != 2 || !isStringType(cf.Params[0].Type()) || !isStringType(cf.Params[1].Type()) || !resultIs(cf, types.Int) {
+				if len(cf.Params) != 2 || !resultIs(cf, types.Int) || !types.Identical(cf.Params[0].Type(), cf.Params[1].Type()) {
 					return
+				}
+				// the names themselves, or a small struct that carries a name with its parsed level and index: which field
+				// holds which component is read off the places that fill such a struct from the parser's results
+				fieldComp := map[int]int{}
+				if !isStringType(cf.Params[0].Type()) {
+					st, isStruct := cf.Params[0].Type().Underlying().(*types.Struct)
+					if !isStruct || p.isModuleNamed(cf.Params[0].Type()) == nil {
+						return
+					}
+					for _, g := range p.Funcs {
+						if g.Pkg != rec.Pkg {
+							continue
+						}
+						eachInstr(g, func(i2 ssa.Instruction) {
+							sto, ok := i2.(*ssa.Store)
+							if !ok {
+								return
+							}
+							fa, ok := sto.Addr.(*ssa.FieldAddr)
+							if !ok {
+								return
+							}
+							pt, ok := fa.X.Type().Underlying().(*types.Pointer)
+							if !ok || !types.Identical(pt.Elem(), cf.Params[0].Type()) {
+								return
+							}
+							if ex, ok := stripValue(sto.Val).(*ssa.Extract); ok && ex.Index < 2 {
+								if call, ok := ex.Tuple.(*ssa.Call); ok && call.Call.StaticCallee() == parse {
+									if old, seen := fieldComp[fa.Field]; seen && old != ex.Index {
+										fieldComp[fa.Field] = -1
+									} else {
+										fieldComp[fa.Field] = ex.Index
+									}
+								}
+							}
+						})
+					}
+					_ = st
+					if len(fieldComp) < 2 {
+						return
+					}
 				}
 				n++
 				fn := p.FnName(host)
 				// component k (0 = level, 1 = index) of parameter q
 				comp := func(v ssa.Value) (param, k int, ok bool) {
+					if len(fieldComp) > 0 {
+						// a.level / b.idx on the struct parameters (value or spilled copy)
+						var base ssa.Value
+						fidx := -1
+						switch x := stripValue(v).(type) {
+						case *ssa.Field:
+							base, fidx = x.X, x.Field
+						case *ssa.UnOp:
+							if fa, ok := x.X.(*ssa.FieldAddr); ok && x.Op == token.MUL {
+								base, fidx = singleStore(fa.X), fa.Field
+							}
+						}
+						k, known := fieldComp[fidx]
+						if base == nil || !known || k < 0 {
+							return 0, 0, false
+						}
+						for i, q := range cf.Params {
+							if base == ssa.Value(q) {
+								return i, k, true
+							}
+						}
+						return 0, 0, false
+					}
 					ex, isEx := stripValue(v).(*ssa.Extract)
 					if !isEx {
 						return 0, 0, false
